@@ -559,6 +559,9 @@ class DotGeneralPlugin(PrimitiveLeafPlugin):
         if len(lhs_shape) != 2 or len(rhs_shape) != 2:
             return False
 
+        lhs_contract_axis = lhs_contract[0]
+        if lhs_contract_axis not in (0, 1):
+            return False
         rhs_contract_axis = rhs_contract[0]
         rhs_rank = len(rhs_shape)
         if rhs_contract_axis not in (0, rhs_rank - 1):
@@ -591,13 +594,16 @@ class DotGeneralPlugin(PrimitiveLeafPlugin):
         )
 
         desired_name = getattr(out_spec, "name", None) or ctx.fresh_name("Gemm")
+        gemm_attrs: dict[str, Any] = {"alpha": 1.0, "beta": 0.0}
+        if lhs_contract_axis == 0:
+            # Gemm contracts A's last axis; the lhs contracts its first one.
+            gemm_attrs["transA"] = 1
         result = ctx.builder.Gemm(
             lhs_val,
             rhs_input,
             bias_val,
-            alpha=1.0,
-            beta=0.0,
             _outputs=[desired_name],
+            **gemm_attrs,
         )
 
         _stamp_type_and_shape(result, out_shape)
